@@ -358,3 +358,8 @@ add("merge_tool_dfcc", ["C04", "C18"], ["tu/merge_tool_dfcc.c"], "h_merge_tool_d
     replace=["mtbl_merger_source/mtbl_merger_source__cap", "mtbl_source_iter/mtbl_source_iter__cap", "mtbl_iter_next/mtbl_iter_next__cap", "mtbl_writer_add/mtbl_writer_add__cap", "mtbl_iter_destroy/mtbl_iter_destroy__cap",
              "mtbl_merger_destroy/mtbl_merger_destroy__cap", "mtbl_writer_destroy/mtbl_writer_destroy__cap", "print_stats/print_stats__cap"],
     loops="loops/pump_merge.json", unwind=16, timeout=600, slice=1, strength="U", functions=["merge (src/mtbl_merge.c)"], assumptions=PUMP_ASSUME + ["the statistics output every STATS_INTERVAL entries is replaced by a no-op contract"])
+add("bb_reset_dfcc", ["C09", "C01"], ["tu/bb_reset_dfcc.c"], "h_bb_reset_dfcc", mode="dfcc", enforce="block_builder_reset/block_builder_reset__spec",
+    replace=["ubuf_reset/ubuf_reset__cap", "uint64_vec_reset/uint64_vec_reset__cap", "uint64_vec_add/uint64_vec_add__cap"], unwind=16, timeout=300, slice=1, strength="U", functions=["block_builder_reset"],
+    assumptions=["vector operations replaced by capture contracts (own check: vec_step)"])
+add("bb_estimate_dfcc", ["C09"], ["tu/bb_reset_dfcc.c"], "h_bb_estimate_dfcc", mode="dfcc", enforce="block_builder_current_size_estimate/block_builder_current_size_estimate__spec",
+    unwind=8, timeout=300, strength="U", functions=["block_builder_current_size_estimate"], assumptions=["entry bytes <= 2^50, restart points <= 2^40"])
